@@ -7,7 +7,7 @@ from harness.translators import json_fields
 META = dict(
     id='C05',
     model_run='PG.Model.JsonRun.run',
-    model_targets=['Model/Json.vo', 'Model/MemFS.vo', 'Model/MemSeq.vo', 'Model/JsonRun.vo'],
+    model_targets=['Model/Json.vo', 'Model/JsonText.vo', 'Model/MemFS.vo', 'Model/MemSeq.vo', 'Model/JsonRun.vo'],
     technique=('Coq proofs over executable models of (1) symbolic to_json/from_json and the int-key encoding of the string form, '
                '(2) the in-memory file system with pg.save/pg.load and line sequences on it, (3) in-memory record sequences; '
                'differential correspondence of each model against the implementation on generated values and histories; '
@@ -200,6 +200,8 @@ def jv_to_json(t):
 
 ERR = {ValueError: 1, TypeError: 2, KeyError: 3, AssertionError: 4}
 def err_code(e):
+  if isinstance(e, json.JSONDecodeError):
+    return 1
   for c, n in ERR.items():
     if type(e) is c:
       return n
@@ -603,6 +605,41 @@ def string_keyed(j):
   if j[0] == 5: return all(string_keyed(e) for e in j[1])
   if j[0] == 7: return all(k[0] == 0 and string_keyed(v) for k, v in j[1])
   return True
+
+# ------------------------------------------------------------------------------------------------
+# the JSON text layer (Model/JsonText.v): values without finite floats
+def no_finite_float(t):
+  if t[0] == 3: return t[1][0] in (1, 2, 3)
+  if t[0] in (5, 6): return all(no_finite_float(e) for e in t[1])
+  if t[0] == 7: return all(no_finite_float(v) for _, v in t[1])
+  if t[0] == 8: return all(no_finite_float(v) for _, v in t[2])
+  return True
+
+def respell(r, text):
+  """another spelling of the same JSON text, or a damaged one: what json.loads accepts beyond what json.dumps writes"""
+  k = r.randrange(12)
+  try:
+    obj = json.loads(text)
+  except Exception:
+    obj = None
+  if k == 0 and obj is not None: return json.dumps(obj, indent=r.choice([0, 1, 2]))
+  if k == 1 and obj is not None: return json.dumps(obj, ensure_ascii=False)
+  if k == 2 and obj is not None: return json.dumps(obj, separators=(',', ':'))
+  if k == 3 and obj is not None: return r.choice([' ', '\n\t', '']) + json.dumps(obj, separators=(' ,\r\n ', ' :\t')) + r.choice([' ', '\n', ''])
+  if k == 4: return text.replace('\\u00', '\\u00'.upper() if False else '\\u00').replace('\\ud8', '\\uD8').replace('\\udc', '\\uDC').replace('a', '\\u0061', 1)
+  if k == 5: return text.replace('/', '\\/')
+  if k == 6: return text[:r.randint(0, len(text))]                       # truncated
+  if k == 7: return text.replace(']', ',]', 1) if ']' in text else text + ','
+  if k == 8: return text.replace('1', '01', 1) if '1' in text else '01'
+  if k == 9: return text.replace('"', '"\x01', 1) if '"' in text else text   # raw control character
+  if k == 10: return text + r.choice([' x', ' 1', ']', ' null'])            # extra data
+  return text.replace('null', r.choice(['nul', 'None', 'NULL']), 1) if 'null' in text else text.replace(': ', ' = ', 1)
+
+def has_float_token(text):
+  """a number with a fraction or an exponent outside string literals (finite floats are not modelled)"""
+  import re
+  stripped = re.sub(r'"(\\.|[^"\\])*"', '""', text)
+  return re.search(r'[0-9][.eE]|[.eE][0-9+-]', stripped) is not None
 
 # ------------------------------------------------------------------------------------------------
 # file-system histories
@@ -1226,6 +1263,34 @@ def run(ctx):
     ctx.count(('j', kind, json.dumps(j)), nontrivial=True, kind='json-kind-%d' % kind)
     ctx.hist('decode_outcome', 'ok' if out[0] == 0 else 'error-%s' % out[1])
 
+  # ---- (a'') the text itself: json.dumps / json.loads against Model/JsonText.v (values without finite floats) ----------
+  ntext = ctx.scale(700, 8000)
+  made = 0
+  vg_nf = ValueGen(r, None)
+  while made < ntext:
+    t = vg_nf.value(r.choice([0, 1, 2, 3]))
+    if not no_finite_float(t):
+      continue
+    try:
+      v = pv_to_py(t)
+      text = p.to_json_str(v)
+    except Exception:
+      continue
+    made += 1
+    add_case([3, [q, ct, 7, t]], S(text), dict(part='value', kind=7, value=t))
+    ctx.count(('text', json.dumps(t)), nontrivial=True, kind='text-dumps')
+    for _ in range(2):
+      t2 = respell(r, text)
+      if has_float_token(t2):
+        continue
+      try:
+        out = attempt(lambda: p.from_json_str(t2))[0]
+      except RecursionError:
+        continue
+      add_case([3, [q, ct, 8, S(t2)]], out, dict(part='text', kind=8, text=t2))
+      ctx.count(('loads', t2), nontrivial=True, kind='text-loads')
+      ctx.hist('text_loads_outcome', 'ok' if out[0] == 0 else 'error-%s' % out[1])
+
   # ---- (b) file-system histories -----------------------------------------------------------------
   nhist = ctx.scale(600, 4000)
   std_base = os.path.join(ctx.workdir, 'std')
@@ -1297,6 +1362,7 @@ def run(ctx):
     d = lookup.get(id(c), {})
     if d.get('part') == 'value': return dict(part='value', kind=d['kind'], value=clean(repr(pv_to_py(d['value'])))[:300])
     if d.get('part') == 'json': return dict(part='json', kind=d['kind'], json=clean(repr(jv_to_json(d['json'])))[:300])
+    if d.get('part') == 'text': return dict(part='text', kind=d['kind'], text=clean(repr(d['text']))[:300])
     return d
   ctx.compare('JsonRun.run vs pg.to_json / from_json / to_json_str / from_json_str, pg.io on /mem/, MemorySequenceIO', cases, impl_outs, model_outs, describe=describe)
   ctx.exhaustive = False
